@@ -125,12 +125,15 @@ fn hygiene_block(rendering: &str, prefix: char, i: usize) -> Option<String> {
     Some(out.split_whitespace().collect::<Vec<_>>().join(" "))
 }
 
-/// first duplicated item whose two expansions differ (in tokens or in hygiene), if any
+/// first duplicated item whose two expansions differ (in tokens or in hygiene), if any.
+/// Compared token by token (rustc's pretty printer breaks lines -- and with them sets trailing
+/// commas -- by the width of the annotations, whose numbers differ between the two copies).
 fn hygiene_of_duplicates(rendering: &str, n_items: usize) -> Option<(usize, String)> {
+    let (Some(ms), Some(ds)) = (module_token_blocks(rendering, 'm', false), module_token_blocks(rendering, 'd', false)) else { return None };
     for i in 0..n_items.min(DUPLICATES) {
-        if let (Some(a), Some(b)) = (hygiene_block(rendering, 'm', i), hygiene_block(rendering, 'd', i)) {
-            if a != b {
-                return Some((i, first_diff(&a, &b)));
+        if let (Some(a), Some(b)) = (ms.iter().find(|x| x.0 == i), ds.iter().find(|x| x.0 == i)) {
+            if a.1 != b.1 {
+                return Some((i, first_diff(&a.1, &b.1)));
             }
         }
     }
@@ -290,6 +293,12 @@ fn unwrap_surroundings(ts: proc_macro2::TokenStream) -> proc_macro2::TokenStream
 
 /// None if rustc's output does not lex as Rust (then nothing is compared: never an alarm)
 fn normalise_acc_modules(rendering: &str) -> Option<String> {
+    let blocks = module_token_blocks(rendering, 'm', true)?;
+    Some(blocks.into_iter().map(|b| format!("m{}: {}", b.0, b.1)).collect::<Vec<_>>().join("\n"))
+}
+
+/// (index, canonical token string) of every `mod <prefix><index> { .. }` of an expanded crate
+fn module_token_blocks(rendering: &str, prefix: char, drop_ctx_of_split_items: bool) -> Option<Vec<(usize, String)>> {
     use proc_macro2::{Delimiter, TokenTree};
     // hygiene annotations `/* sym#ctxt */` (comments to a lexer) become identifier tokens
     // `__ctx_<ctxt>`; below they are renumbered by first appearance inside each module, so that
@@ -327,12 +336,12 @@ fn normalise_acc_modules(rendering: &str) -> Option<String> {
             continue;
         }
         let name = name.to_string();
-        let Some(k) = name.strip_prefix('m').and_then(|x| x.parse::<usize>().ok()) else { continue };
+        let Some(k) = name.strip_prefix(prefix).and_then(|x| x.parse::<usize>().ok()) else { continue };
         let mut s = String::new();
         canon_tokens(unwrap_surroundings(g.stream()), &mut s);
         // (an item whose attributes come from a macro's call site and whose body comes from the
         // macro's definition -- surroundings 4 of 5 -- legitimately mixes two syntax contexts)
-        let drop_ctx = k % 5 == 4;
+        let drop_ctx = drop_ctx_of_split_items && k % 5 == 4;
         let mut seen: Vec<&str> = Vec::new();
         let mut t = String::with_capacity(s.len());
         for w in s.split(' ') {
@@ -360,7 +369,7 @@ fn normalise_acc_modules(rendering: &str) -> Option<String> {
         return None;
     }
     blocks.sort_by_key(|b| b.0);
-    Some(blocks.into_iter().map(|b| format!("m{}: {}", b.0, b.1)).collect::<Vec<_>>().join("\n"))
+    Some(blocks)
 }
 
 /// `rej` rendering as (module, level, message) in emitted order per module, positions dropped,
